@@ -502,6 +502,34 @@ def run(chk):
                 chk.corr_fail.append((desc, got, w))
                 chk.violation('impl-vs-spec', desc, {'impl (ids in result order)': got, 'stable sort by the atomized value': w})
             chk.nontrivial.add('sortnodes:' + form + repr(vals))
+    # ---- maps and arrays as function items (XPath 3.1 2.8 / 17): arity 1, usable wherever a function of one argument is expected,
+    # f(k) = lookup; checked against the direct lookup on generated arrays and maps
+    NSM = {'map': 'http://www.w3.org/2005/xpath-functions/map', 'array': 'http://www.w3.org/2005/xpath-functions/array'}
+    for _ in range(40 if chk.tier == 'quick' else 1500):
+        n = rng.randint(0, 5)
+        vals = [rng.randint(-9, 9) for _ in range(n)]
+        arr = '[' + ', '.join(map(str, vals)) + ']'
+        mp = 'map{' + ', '.join(f'{k}: {v}' for k, v in enumerate(vals, start=1)) + '}'
+        keys = [rng.randint(1, max(n, 1)) for _ in range(rng.randint(0, 4))] if n else []
+        ks = '(' + ', '.join(map(str, keys)) + ')'
+        cases = [(f'function-arity({arr})', [1]), (f'function-arity({mp})', [1]),
+                 (f'for-each({ks}, {arr})', [vals[k - 1] for k in keys]), (f'for-each({ks}, {mp})', [vals[k - 1] for k in keys]),
+                 (f'{ks} ! {arr}(.)', [vals[k - 1] for k in keys]), (f'filter({ks}, function($k) {{ {mp}($k) gt 0 }})', [k for k in keys if vals[k - 1] > 0]),
+                 (f'{arr} instance of function(xs:integer) as item()*', [True]), (f'{arr} instance of function(xs:integer, xs:integer) as item()*', [False]),
+                 (f'for-each-pair({ks}, {ks}, {arr})', 'error'), (f'fold-left({ks}, 0, {mp})', 'error'),
+                 (f'apply({arr}, [{keys[0]}])', [vals[keys[0] - 1]]) if keys else (f'array:size({arr})', [n])]
+        for expr, want in cases:
+            chk.evaluations += 1
+            chk.count('maps-arrays-as-functions')
+            try:
+                got = select(None, expr, parser=XPath31Parser, namespaces=NSM, item=1)
+                got = got if isinstance(got, list) else [got]
+            except ElementPathError as ex:
+                got = 'error'
+            if got != want:
+                chk.corr_fail.append(({'expr': expr}, got, want))
+                chk.violation('impl-vs-spec', {'expr': expr}, {'impl': repr(got)[:200], 'spec': repr(want)})
+            chk.nontrivial.add('mapfn:' + expr)
     chk.rule = ('fixed corpus (closures in loops, closure factories, shadowing at call time, HOFs, stable sort, partial application) + seeded '
                 'typed random programs (depth <= 4) evaluated twice under the 3.1 and 3.0 parsers against C16.Model.eval; non-trivial = distinct program')
     chk.obligations.append({'name': 'correspondence:impl==reference semantics', 'ok': not chk.corr_fail,
